@@ -49,7 +49,23 @@ def make_decoder(name, code, em, p, **kw):
     return DECODERS[name](code, em, p, **kw)
 
 
-def errors_for(code, rng, tier, exhaustive_bits=None):
+@contextlib.contextmanager
+def time_limit(seconds):
+    """a decode that does not come back is reported as an exception of that decode instead of stalling the whole run"""
+    import signal
+
+    def onalarm(signum, frame):
+        raise TimeoutError('decode did not return within %d s' % seconds)
+    old = signal.signal(signal.SIGALRM, onalarm)
+    signal.alarm(seconds)
+    try:
+        yield
+    finally:
+        signal.alarm(0)
+        signal.signal(signal.SIGALRM, old)
+
+
+def errors_for(code, rng, tier, exhaustive_bits=None, dense=False):
     """list of (kind, error vector)"""
     n = code.n
     H = code.stabilizer_matrix
@@ -80,7 +96,8 @@ def errors_for(code, rng, tier, exhaustive_bits=None):
             frontier = nxt
         out += [('every_syndrome', e) for e in seen.values()]
         return out
-    for q in range(n):
+    large = dense and n >= 60          # the large 2-D lattices of the fast complete decoders: fewer light errors, more dense ones
+    for q in (range(n) if not large else rng.sample(range(n), 10)):
         for (x, z, nm) in ((1, 0, 'X'), (0, 1, 'Z'), (1, 1, 'Y')):
             e = np.zeros(2 * n, dtype='uint8')
             e[q], e[n + q] = x, z
@@ -93,7 +110,7 @@ def errors_for(code, rng, tier, exhaustive_bits=None):
             e[q], e[n + q] = t
         out.append(('weight2', e))
     for rate in (0.02, 0.05, 0.1, 0.2, 0.4):
-        for _ in range(2 if tier == 'quick' else 20):
+        for _ in range((2 if not large else 12) if tier == 'quick' else (20 if not large else 60)):
             e = np.zeros(2 * n, dtype='uint8')
             for q in range(n):
                 if rng.random() < rate:
@@ -130,7 +147,7 @@ def valid_task(task):
     n = code.n
     rec['n'] = int(n)
     rec['tag'] = dc.dump_instance((cls, size, dn, ax, outdir))[0]
-    errs = errors_for(code, rng, tier)
+    errs = errors_for(code, rng, tier, dense=decname in ('MatchingDecoder', 'UnionFindDecoder') and len(size) == 2)
     if decname == 'MemoryBeliefPropagationDecoder':
         errs = errs[:6]
     keep = set(rng.sample(range(len(errs)), min(len(errs), 40)))
@@ -140,7 +157,7 @@ def valid_task(task):
         rec['kinds'][kind] = rec['kinds'].get(kind, 0) + 1
         d = {'kind': kind, 'error': rows(e, n)}
         try:
-            with contextlib.redirect_stdout(io.StringIO()), np.errstate(all='ignore'):
+            with contextlib.redirect_stdout(io.StringIO()), np.errstate(all='ignore'), time_limit(60):
                 c = np.asarray(dec.decode(syn.copy()))
             okshape = (c.shape == (2 * n,))
             binary = bool(okshape and set(np.unique(c).tolist()) <= {0, 1})
@@ -205,6 +222,9 @@ def main():
                     sz = sz[:1]
                 elif 'Sweep' in decname and tier == 'quick':
                     sz = sz[:4]
+                if decname in ('MatchingDecoder', 'UnionFindDecoder') and klass.dimension == 2:
+                    # dense syndromes on larger lattices: clusters that absorb one another several times while growing
+                    sz = sz + [x for x in ([(6, 6), (5, 7), (7, 7), (8, 8)] + ([(9, 10), (12, 12)] if tier == 'thorough' else [])) if dc.supported(cls, x)]
                 variants = [(None, None)]
                 if decname in ('BeliefPropagationOSDDecoder',):
                     variants += [(nm, ax) for nm in klass.deformation_names for ax in (dc.AXES.get(cls, [None])[:1] if tier == 'quick' else dc.AXES.get(cls, [None])[:2])]
